@@ -249,8 +249,6 @@ func runC03(c *Ctx) {
 // c03Justified: residual index expressions accepted with a reason (checked by reading).
 var c03Justified = []bceJustified{
 	{"io/nexus.(*Parser).parseData", "[]rune(lit4)[0]", "guarded by `len(lit4) != 1`: a one-byte string converts to exactly one rune"},
-	{"io/clustal.(*Parser).Parse", "seqs[currentnbseqs]", "names and seqs are only ever appended to together (same block, nblocks == 0), so len(seqs) == len(names); currentnbseqs < len(names) is checked just above and currentnbseqs counts up from 0"},
-	{"io/clustal.(*Parser).Parse", "seqs[i]", "i ranges over names; names and seqs are appended together, so len(seqs) == len(names)"},
 	{"io/phylip.(*Parser).Parse", "seqs[i]", "the first loop appends exactly one name and one buffer per i in [0, nbseq) or returns an error; later loops use i < nbseq = len(seqs); the last loop ranges over names with len(names) == len(seqs)"},
 	{"io/phylip.(*Parser).Parse", "seqs[0]", "reached only after the first loop completed nbseq >= 1 iterations (nbseq == 0 and nbseq < 0 are rejected before), each of which appended one buffer"},
 	{"align.(*PartitionSet).AddRange", "ps.partitions[i]", "proved by rule table-index-safe (linear bounds with the struct invariant length == len(partitions))"},
